@@ -103,15 +103,22 @@ func (w *world) OnHandler(ti, slot int, ctxAware bool, ctx context.Context, id i
 		}
 	}
 	k := hkeyOf(t, slot, ctxAware)
-	if w.seqKeys[k] {
-		return // Sequential handlers only record: a nested publish could be the documented self-delivery
-	}
-	w.runNested(k)
+	// A handler that is (ever) subscribed Sequential runs its nested script
+	// too - unsubscribe, subscribe, clear, queries - but no publishes: a
+	// publish from inside it could be delivered back to a Sequential handler
+	// that is on a call stack (the documented self-delivery and its
+	// transitive forms).
+	w.runNestedOpts(k, w.seqKeys[k])
 }
 
-func (w *world) runNested(key string) {
+func (w *world) runNested(key string) { w.runNestedOpts(key, false) }
+
+func (w *world) runNestedOpts(key string, noPublish bool) {
 	ops := w.c.Nested[key]
 	for _, op := range ops {
+		if noPublish && (op.K == "pub" || op.K == "pubctx") {
+			continue
+		}
 		if w.fuel.Add(-1) < 0 {
 			return
 		}
